@@ -315,8 +315,8 @@ func (c *Cache) Stop() {
 
 func (c *Cache) startWorker(ch chan *EventSubscription) {
 	for eventSub := range ch {
-		verifPoint("cache.pickup")
 		verifBusy(1)
+		verifPoint("cache.pickup")
 		eventSub.processQueue()
 		verifBusy(-1)
 	}
